@@ -1,6 +1,7 @@
 import GBModel.Assemble
 import GBModel.Eval
 import GBModel.OneElec
+import GBModel.TwoElec
 /-!
 # Line protocol of the model executable
 
@@ -137,6 +138,17 @@ def handle : P String := do
     let n := b.total
     pure (fmt [n, n, np] (assemble2 b b np fun i j => tab np fun e =>
       pointChargeBlock boysBM b[i]! b[j]! (fun ax => (pts.getD e #[]).getD ax (Num.nat 0)) (qs.getD e (Num.nat 0))))
+  | "eri" => do   -- chemists' notation, every quartet computed directly
+    let b ← basisTok
+    let n := b.total
+    pure (fmt [n, n, n, n] (assemble4 b fun i j k l => eriBlock boysBM b[i]! b[j]! b[k]! b[l]!))
+  | "eri4" => do   -- (ab|cd) with a ∈ b1, b ∈ b2, c ∈ b3, d ∈ b4
+    let b1 ← basisTok
+    let b2 ← basisTok
+    let b3 ← basisTok
+    let b4 ← basisTok
+    pure (fmt [b1.total, b2.total, b3.total, b4.total]
+      (assemble4g b1 b2 b3 b4 fun i j k l => eriBlock boysBM b1[i]! b2[j]! b3[k]! b4[l]!))
   | "boys" => do   -- T, mMax
     let t ← bfTok
     let mm ← natTok
